@@ -69,6 +69,10 @@ CHECKS = {
          "Exploration: gradient of the penalised negative log-likelihood at the fitted coefficients relative to the gradient at zero (alpha > 0), final objective <= starting objective (alpha >= 0), predicted labels = arg-max / sign of the fitted linear scores and members of the label set; L-BFGS on strictly convex quadratics (dimension 1..12, cond <= 1e4): gradient reduction, reported value, no increase of the objective along the iterates.",
          "Needs hook H1 (re-export of LBFGS / Backtracking). One known finding (iteration budget on badly scaled features) is keyed on a replica run of the same optimiser.",
          "DESIGN.md section 7 C09"),
+ "C10": ("property-based testing (proptest) over data, parameters and the trainer's visiting order (generated schedule seed through a cfg hook), with the model read back through serde and independent kernel formulas; KKT residuals recomputed in f64",
+         "Exploration: SVC dual coefficients within [0, C] in the direction of their sample's class and summing to zero, support vectors are training rows, decision_function = b + sum w_i K(sv_i, x) with our own kernel formulas, predict = the larger class iff the decision value is positive, for every generated visiting order (tiny sets are refitted under 60 / 400 orders); SVR box and equality constraints, epsilon-insensitive KKT conditions at every training point within tol, prediction = kernel expansion; kernel closed forms, exact symmetry, PSD Gram matrices for linear and RBF.",
+         "Needs hook H2 (schedule seed in SVC's permutation). Schedules are explored by sampling seeds; exhaustive only in probability, as the property says.",
+         "DESIGN.md section 7 C10"),
 }
 ALL = ["C%02d" % i for i in range(1, 21)]
 NA_REASON = {}
